@@ -1,8 +1,26 @@
-"""Facts and shape switches for C14 (dagrt/data.py unify, SymbolKindTable; dagrt/utils.py
-is_state_variable) -> coq/gen/GenC14.v"""
-import ast
+"""Facts and shape switches for C14 -> coq/gen/GenC14.v
 
-from harness.tr import (HEADER, ShapeError, _find_class, _find_def, _parse, _src, coq_bool,
+dagrt/data.py: unify, SymbolKindTable, KindInferenceMapper (the methods the model mirrors),
+SymbolKindFinder.__call__, infer_kinds; dagrt/utils.py: is_state_variable, resolve_args;
+dagrt/function_registry.py: every get_result_kinds, Function.resolve_args, the registrations of
+_make_bfr.
+
+Two kinds of ties:
+  * shape switches (a boolean the model takes as a parameter, two recognised source shapes each):
+      unify_usertype_accepts_int, unify_array_accepts_int      (unify)
+      set_insert_marks_changed, set_reraises                   (SymbolKindTable.set)
+      loop_variables_prepass, finder_restarts_after_change     (SymbolKindFinder.__call__)
+      builtins_require_arrays                                  (MatMul/Transpose/LinearSolve/SVD)
+  * pinned text: every other function the model mirrors line by line must have exactly the
+    expected text (docstrings and comments aside; compared through a hash of ast.unparse).
+    SymbolKindFinder.__call__ is pinned after the two optional fragments have been cut out.
+Anything else is a ShapeError (fail-closed).
+"""
+import ast
+import copy
+import hashlib
+
+from harness.tr import (HEADER, ShapeError, _find_class, _find_def, _parse, _src, coq_bool, coq_string,
                         coq_string_list)
 
 
@@ -131,20 +149,48 @@ def state_variable_lists(repo):
     return exact, prefixes
 
 
+# ------------------------------------------------------------------ SymbolKindFinder.__call__
+
 PREPASS = ("for (phase_name, phase) in zip(names, phases):\n"
            "    for stmt in phase:\n"
            "        if isinstance(stmt, lang.Assign):\n"
            "            for (ident, _, _) in stmt.loops:\n"
            "                result.set(phase_name, ident, kind=Integer())")
 
+RESTART = "if result.is_changed():\n    break"
 
-def finder_facts(tree):
-    """Structural facts of SymbolKindFinder.__call__ the model relies on, and the switch for the
-    up-front registration of loop variables (a `for` over zip(names, phases) placed between the
-    forced kinds and make_kim)."""
+# hash of the body of SymbolKindFinder.__call__ once the two optional fragments are cut out
+FINDER_CORE = "d67924ea277ef93e"
+
+
+def _strip_doc(fn):
+    body = list(fn.body)
+    if body and isinstance(body[0], ast.Expr) and isinstance(getattr(body[0], "value", None), ast.Constant) \
+            and isinstance(body[0].value.value, str):
+        body = body[1:]
+    return body
+
+
+def _body_src(fn):
+    return "\n".join(_src(s) for s in _strip_doc(fn))
+
+
+def _h(text):
+    return hashlib.sha256(text.encode()).hexdigest()[:16]
+
+
+def _norm(src):
+    return ast.unparse(ast.parse(src))
+
+
+def finder_shape(tree):
+    """(loop_variables_prepass, finder_restarts_after_change, hash of the remaining text).
+
+    prepass: the `for` over zip(names, phases) that registers loop variables, placed between the
+    forced kinds and make_kim.  restart: `if result.is_changed(): break` as the first statement
+    of the `if not made_progress:` block of the work-list loop."""
     cls = _find_class(tree, "SymbolKindFinder")
-    fn = _find_def(cls, "__call__")
-    src = _src(fn)
+    fn = copy.deepcopy(_find_def(cls, "__call__"))
     kinds = []
     for n in fn.body:
         if isinstance(n, ast.If) and _src(n.test) == "forced_kinds is not None":
@@ -154,36 +200,193 @@ def finder_facts(tree):
         elif isinstance(n, ast.While):
             kinds.append("while")
         elif isinstance(n, ast.For) and _src(n.iter) == "zip(names, phases)":
-            kinds.append("prepass" if ast.unparse(n) == ast.unparse(ast.parse(PREPASS).body[0]) else "for")
+            kinds.append("prepass" if ast.unparse(n) == _norm(PREPASS) else "for")
     if kinds == ["forced", "make_kim", "while", "for"]:
         prepass = False
     elif kinds == ["forced", "prepass", "make_kim", "while", "for"]:
         prepass = True
+        fn.body = [n for n in fn.body
+                   if not (isinstance(n, ast.For) and ast.unparse(n) == _norm(PREPASS))]
     else:
         raise ShapeError("data.py SymbolKindFinder.__call__: unexpected statement sequence %r" % kinds)
-    _finder_needles(src)
-    return prepass
+    # while True: ... while stmt_queue or stmt_queue_push_buffer: if not stmt_queue: if not made_progress:
+    try:
+        outer = [n for n in fn.body if isinstance(n, ast.While)][0]
+        inner = [n for n in outer.body if isinstance(n, ast.While)][0]
+        refill = inner.body[0]
+        stuck = refill.body[0]
+        ok = (_src(outer.test) == "True" and _src(inner.test) == "stmt_queue or stmt_queue_push_buffer"
+              and isinstance(refill, ast.If) and _src(refill.test) == "not stmt_queue"
+              and isinstance(stuck, ast.If) and _src(stuck.test) == "not made_progress")
+    except (IndexError, AttributeError):
+        ok = False
+    if not ok:
+        raise ShapeError("data.py SymbolKindFinder.__call__: work-list loop not found")
+    restart = ast.unparse(stuck.body[0]) == _norm(RESTART)
+    if restart:
+        stuck.body = stuck.body[1:]
+    return prepass, restart, _h(_body_src(fn))
 
 
-def _finder_needles(src):
-    for needle in ("phase_name, stmt = stmt_queue.pop()",
-                   "stmt_queue = stmt_queue_push_buffer",
-                   "stmt_queue_push_buffer.append((phase_name, stmt))",
-                   "kind = kim(flatten(stmt.expression))",
-                   "if not result.is_changed():\n            break",
-                   "result.reset_change_flag()",
-                   "result.per_phase_table.get(phase_name, {})",
-                   "raise RuntimeError('failed to infer kinds')"):
-        if needle not in src:
-            raise ShapeError("data.py SymbolKindFinder.__call__: expected %r" % needle)
+def finder_facts(tree):
+    prepass, restart, h = finder_shape(tree)
+    if h != FINDER_CORE:
+        raise ShapeError("data.py SymbolKindFinder.__call__: text changed (got %s want %s)" % (h, FINDER_CORE))
+    return prepass, restart
+
+
+# ------------------------------------------------------------------ pinned functions
+
+# (file, class or None, function) -> accepted hashes of the body text
+EXPECT = {
+    ('dagrt/data.py', 'KindInferenceMapper', '__init__'): ['920bbf745d3f9353'],
+    ('dagrt/data.py', 'KindInferenceMapper', 'map_constant'): ['124d6f80696249c9'],
+    ('dagrt/data.py', 'KindInferenceMapper', 'map_variable'): ['58636ea46ce8b293'],
+    ('dagrt/data.py', 'KindInferenceMapper', 'map_sum'): ['fd496905173f0f3a'],
+    ('dagrt/data.py', 'KindInferenceMapper', 'map_product_like'): ['a94d2bf2498db865'],
+    ('dagrt/data.py', 'KindInferenceMapper', 'map_product'): ['d887953015724d61'],
+    ('dagrt/data.py', 'KindInferenceMapper', 'map_quotient'): ['b5ef549b6382a04f'],
+    ('dagrt/data.py', 'KindInferenceMapper', 'map_comparison'): ['47f599b229b7c045'],
+    ('dagrt/data.py', 'KindInferenceMapper', 'map_generic_call'): ['a05c1d1c198fad29'],
+    ('dagrt/data.py', 'KindInferenceMapper', 'map_call'): ['fb7e42e32938f067'],
+    ('dagrt/data.py', 'KindInferenceMapper', 'map_call_with_kwargs'): ['2f6ad7ae3054d1e8'],
+    ('dagrt/data.py', None, '_get_arg_dict_from_call_stmt'): ['37b52e19252e3566'],
+    ('dagrt/data.py', None, 'infer_kinds'): ['b83a75233bf01c15'],
+    ('dagrt/function_registry.py', 'FunctionRegistry', '__getitem__'): ['932b8a9ea7745891'],
+    ('dagrt/function_registry.py', 'Function', 'resolve_args'): ['f019774a5bd39afb'],
+    ('dagrt/function_registry.py', '_NormBase', 'get_result_kinds'): ['8582ca56c9f3c803'],
+    ('dagrt/function_registry.py', 'ElementwiseAbs', 'get_result_kinds'): ['ab3c4b799fde8254'],
+    ('dagrt/function_registry.py', 'DotProduct', 'get_result_kinds'): ['54f572879cf6e102'],
+    ('dagrt/function_registry.py', 'Len', 'get_result_kinds'): ['5ae8a313c465fca6'],
+    ('dagrt/function_registry.py', 'IsNaN', 'get_result_kinds'): ['11d9cea37c9904c7'],
+    ('dagrt/function_registry.py', 'Array_', 'get_result_kinds'): ['33f91c21d348965e'],
+    ('dagrt/function_registry.py', 'Print', 'get_result_kinds'): ['350145e90b12ecf5'],
+    ('dagrt/function_registry.py', 'FixedResultKindsFunction', 'get_result_kinds'): ['9015951a40e245ba'],
+    ('dagrt/function_registry.py', '_ODERightHandSide', 'arg_names'): ['3515c78f74a41367'],
+    ('dagrt/function_registry.py', '_ODERightHandSide', 'get_result_kinds'): ['210659b3d94f08b2'],
+    ('dagrt/utils.py', None, 'resolve_args'): ['412db2d02833a2c1'],
+}
+
+# the matrix built-ins: [hash of the shape reading `.is_real_valued` of any kind,
+#                        hash of the shape that is unable unless the matrix arguments are arrays]
+MATRIX = {
+    'MatMul': ['0c934d440daffc27', 'a22c73f0a2a514d4'],
+    'Transpose': ['a5cce528efbdb09b', '6bb26d3354abeafb'],
+    'LinearSolve': ['9465138fb62114e3', '37cc76c2d142e6e3'],
+    'SVD': ['86b4f7bf36975e1c', 'ce5d9aace5e7dc8c'],
+}
+
+
+def _get(trees, repo, rel, cls, name):
+    if rel not in trees:
+        trees[rel] = _parse(repo, rel)
+    node = trees[rel] if cls is None else _find_class(trees[rel], cls)
+    return _find_def(node, name)
+
+
+def function_hashes(repo):
+    trees = {}
+    out = {k: _h(_body_src(_get(trees, repo, *k))) for k in EXPECT}
+    for cls in MATRIX:
+        k = ('dagrt/function_registry.py', cls, 'get_result_kinds')
+        out[k] = _h(_body_src(_get(trees, repo, *k)))
+    return out
+
+
+def pinned(repo):
+    """Checks the pinned texts; returns builtins_require_arrays."""
+    got = function_hashes(repo)
+    bad = ["%s %s.%s: got %s want %s" % (k[0], k[1] or "", k[2], got[k], "/".join(EXPECT[k]))
+           for k in sorted(EXPECT, key=str) if got[k] not in EXPECT[k]]
+    shapes = set()
+    for cls, (old, new) in sorted(MATRIX.items()):
+        g = got[('dagrt/function_registry.py', cls, 'get_result_kinds')]
+        if g == old:
+            shapes.add(False)
+        elif g == new:
+            shapes.add(True)
+        else:
+            bad.append("dagrt/function_registry.py %s.get_result_kinds: got %s want %s or %s" % (cls, g, old, new))
+    if bad:
+        raise ShapeError("source of modelled functions changed:\n  " + "\n  ".join(bad))
+    if len(shapes) != 1:
+        raise ShapeError("function_registry.py: MatMul/Transpose/LinearSolve/SVD.get_result_kinds are not "
+                         "all of the same shape")
+    return shapes.pop()
+
+
+# ------------------------------------------------------------------ the base function registry
+
+def _class_attr(cls, name):
+    for n in cls.body:
+        if isinstance(n, ast.Assign) and len(n.targets) == 1 and _src(n.targets[0]) == name:
+            return ast.literal_eval(n.value)
+    return None
+
+
+# class that provides get_result_kinds -> constructor of KindInfer.rkind (coq/model/KindInferCfg.v)
+RK_CLASSES = ["_NormBase", "ElementwiseAbs", "DotProduct", "Len", "IsNaN", "Array_", "MatMul", "Transpose",
+              "LinearSolve", "SVD", "Print"]
+
+
+def builtin_facts(repo):
+    """[(identifier, arg_names, len(result_names), class providing get_result_kinds)] of the
+    functions registered by _make_bfr, in order."""
+    tree = _parse(repo, "dagrt/function_registry.py")
+    classes = {c.name: c for c in tree.body if isinstance(c, ast.ClassDef)}
+    mk = _find_def(tree, "_make_bfr")
+    fors = [n for n in mk.body if isinstance(n, ast.For)]
+    if len(fors) != 1 or not isinstance(fors[0].iter, ast.List):
+        raise ShapeError("function_registry.py _make_bfr: expected one `for func, py_pattern in [...]`")
+    if not any(_src(s) == "bfr = bfr.register(func)" for s in fors[0].body):
+        raise ShapeError("function_registry.py _make_bfr: expected `bfr = bfr.register(func)`")
+    facts = []
+    for elt in fors[0].iter.elts:
+        if not (isinstance(elt, ast.Tuple) and len(elt.elts) == 2 and isinstance(elt.elts[0], ast.Call)
+                and isinstance(elt.elts[0].func, ast.Name) and not elt.elts[0].args
+                and not elt.elts[0].keywords):
+            raise ShapeError("function_registry.py _make_bfr: unexpected entry %s" % _src(elt))
+        cname = elt.elts[0].func.id
+        attrs = {}
+        c = classes.get(cname)
+        chain = []
+        while c is not None:
+            chain.append(c)
+            bases = [b.id for b in c.bases if isinstance(b, ast.Name)]
+            c = classes.get(bases[0]) if bases and bases[0] != "Function" else None
+        if not chain:
+            raise ShapeError("function_registry.py: class %s not found" % cname)
+        for key in ("identifier", "arg_names", "result_names", "default_dict"):
+            for c in chain:
+                v = _class_attr(c, key)
+                if v is not None:
+                    attrs[key] = v
+                    break
+            else:
+                raise ShapeError("function_registry.py: class %s has no literal %s" % (cname, key))
+        if attrs["default_dict"] != {}:
+            raise ShapeError("function_registry.py: class %s has defaults (not modelled)" % cname)
+        gr = [c.name for c in chain if any(isinstance(n, ast.FunctionDef) and n.name == "get_result_kinds"
+                                           for n in c.body)]
+        if not gr or gr[0] not in RK_CLASSES:
+            raise ShapeError("function_registry.py: built-in %s gets its result kinds from %r (not modelled)"
+                             % (attrs["identifier"], gr[:1]))
+        # iterating arg_names is what resolve_args does (ElementwiseAbs.arg_names is the string "x")
+        facts.append((attrs["identifier"], [str(a) for a in attrs["arg_names"]], len(attrs["result_names"]),
+                      gr[0]))
+    if len({f[0] for f in facts}) != len(facts):
+        raise ShapeError("function_registry.py _make_bfr: duplicate identifiers")
+    return facts
 
 
 def generate(repo):
     tree = _parse(repo, "dagrt/data.py")
     ut_int, arr_int = unify_flags(tree)
     ins_changed, raises, names = set_flags(tree)
-    prepass = finder_facts(tree)
+    prepass, restart = finder_facts(tree)
     exact, prefixes = state_variable_lists(repo)
+    arr_only = pinned(repo)
+    facts = builtin_facts(repo)
     out = [HEADER % "c14"]
     out.append("(* dagrt/data.py unify *)")
     out.append("Definition unify_usertype_accepts_int : bool := %s." % coq_bool(ut_int))
@@ -193,9 +396,29 @@ def generate(repo):
     out.append("Definition set_reraises : bool := %s." % coq_bool(raises))
     out.append("(* dagrt/data.py SymbolKindFinder.__call__ *)")
     out.append("Definition loop_variables_prepass : bool := %s." % coq_bool(prepass))
+    out.append("Definition finder_restarts_after_change : bool := %s." % coq_bool(restart))
+    out.append("(* dagrt/function_registry.py MatMul / Transpose / LinearSolve / SVD .get_result_kinds *)")
+    out.append("Definition builtins_require_arrays : bool := %s." % coq_bool(arr_only))
+    out.append("(* dagrt/data.py infer_kinds: `names = list(dag.phases)`, `phases = [phase.statements for phase "
+               "in dag.phases.values()]`,\n   `kind_finder(names, phases)` (text pinned; any other text is a "
+               "ShapeError) *)")
+    out.append("Definition infer_kinds_zips_dict_order : bool := true.")
     out.append("(* dagrt/data.py SymbolKindTable.__init__: names preset to Scalar(is_real_valued=True) *)")
     out.append("Definition init_global_names : list string := %s." % coq_string_list(names))
     out.append("(* dagrt/utils.py is_state_variable *)")
     out.append("Definition state_exact : list string := %s." % coq_string_list(exact))
     out.append("Definition state_prefixes : list string := %s." % coq_string_list(prefixes))
+    out.append("(* dagrt/function_registry.py _make_bfr: (identifier, (arg_names, len(result_names)), class whose\n"
+               "   get_result_kinds is used) of the registered built-ins, in order *)")
+    rows = ["(%s, (%s, %d), %s)" % (coq_string(i), coq_string_list(a), n, coq_string(c)) for i, a, n, c in facts]
+    out.append("Definition builtin_facts : list (string * (list string * nat) * string) :=\n  [%s]."
+               % ";\n   ".join(rows))
     return "\n".join(out) + "\n"
+
+
+if __name__ == "__main__":   # development aid: print the current hashes
+    import sys
+    repo = sys.argv[1] if len(sys.argv) > 1 else "/repo"
+    for k, v in sorted(function_hashes(repo).items(), key=str):
+        print("    %r: %r," % (k, v))
+    print("finder", finder_shape(_parse(repo, "dagrt/data.py")))
